@@ -17,7 +17,7 @@ from vf.checks.c12_admission import RejectOnHeader
 ACTIONS = ['open', 'open_rej', 'ws_open', 'poll', 'post_msg', 'post_two', 'post_close', 'post_bad7', 'post_bad0',
            'post_garbage', 'post_17', 'ws_connect', 'ws_probe', 'ws_upgrade', 'ws_badframe', 'ws_msg',
            'ws_closeframe', 'ws_peer_close', 'send', 'send_bin', 'disconnect_sid', 'tick',
-           'get_unknown', 'get_wrong_transport', 'put', 'ws_drop']
+           'get_unknown', 'get_wrong_transport', 'put', 'ws_drop', 'ws_fault']
 TIMEOUTISH = {'ping timeout', 'transport close', 'transport error'}
 
 
@@ -141,6 +141,13 @@ class Side:
             return True
         if h is None or h.client_closed:
             return False
+        if a == 'ws_fault':
+            # the next write of the server on this socket fails once (connection reset)
+            if getattr(self, 'faulted', False) or self.hs.get(sid) != 'open':
+                return False
+            self.faulted = True
+            h.fail_send_at = getattr(h, 'nsend', 0)
+            return True
         st = self.hs.get(sid)
         if a == 'ws_probe':
             if st != 'connected':
